@@ -69,14 +69,24 @@ def main():
     ap.add_argument("--evidence")
     ap.add_argument("--tests", action="store_true", help="also require the mutant to pass the offline baseline tests")
     ap.add_argument("--name")
+    ap.add_argument("--nocross", action="store_true", help="do not run the benign variants of other properties")
     a = ap.parse_args()
     ms = json.load(open(os.path.join(HERE, "checker", "mutants.json")))["mutants"]
-    ms = [m for m in ms if (not a.prop or m["prop"] == a.prop) and (not a.name or m["name"] == a.name)]
+    allms = ms
+    ms = [m for m in allms if (not a.prop or m["prop"] == a.prop) and (not a.name or m["name"] == a.name)]
+    if a.prop and not a.name and not a.nocross:
+        # a behaviour-preserving refactoring written for another property must leave this check silent too
+        for m in allms:
+            if m.get("patch") and m.get("expect") == "pass" and m["prop"] != a.prop:
+                x = dict(m); x["name"] = m["name"] + "@" + a.prop; x["prop"] = a.prop; x.pop("open", None)
+                ms.append(x)
     t0 = time.time()
     res = []
     bad = 0
-    for m in ms:
-        st, why = run_one(m, a.repo, a.tests)
+    from concurrent.futures import ThreadPoolExecutor
+    with ThreadPoolExecutor(max_workers=int(os.environ.get("VERIF_JOBS", "6"))) as ex:
+        results = list(ex.map(lambda m: run_one(m, a.repo, a.tests), ms))
+    for m, (st, why) in zip(ms, results):
         if m.get("open") and st in ("survived", "wrong-rule", "false-alarm"):
             st = "open-" + st   # a gap that is known and documented (DESIGN.md §8.7); reported, does not fail the run
         elif m.get("open"):
